@@ -162,3 +162,32 @@ func VH_C03_AggregateShapes(n1, n2, nest, level int) {
 	}
 	vAssert(total == 2, "no goroutine is lost")
 }
+
+// VH_C03_ScanKinds: the induction step of VH_C03_ScanStep for lines longer
+// than its byte bound: every scanner state against every line kind of both
+// grammars at full length (symbolic fields, ids up to 19 digits, intact or
+// with one arbitrary byte at a chosen position) is scanned without a runtime
+// panic and leaves a state satisfying Inv.
+//
+//verif:prop C03
+//verif:param st 0..19
+//verif:param kind 0..15
+//verif:param corrupt quick=-1,0,11 thorough=-1..40
+//verif:param plen 0..1
+//verif:param sh 0..1
+//verif:contract (*Func).Init parseArgs
+//verif:summarize trimLeftSpace atou
+func VH_C03_ScanKinds(st, kind, corrupt, plen, sh int) {
+	ng, nc, ncb, gi := vhShape(st, sh)
+	if state(st) == looking && plen != 0 {
+		return // excluded by Inv
+	}
+	if (state(st) == gotRaceHeader1 || state(st) == gotRaceHeader2 || state(st) == looking) && sh != 0 {
+		return
+	}
+	s := vhPre(st, plen, ng, nc, ncb, gi)
+	line := vhCat(s.prefix, vhKindLine(kind, corrupt, 0))
+	_, _ = s.scan(line)
+	vReach("kind line scanned")
+	vAssert(vhInv(s), "representation invariant holds after the step")
+}
